@@ -577,13 +577,20 @@ def sortedB : List DebEntry → Bool
 
 def invB (l : Ledger) : Bool := supplyOk l && sharesOk l && scopeOk l && sortedB l.deb
 
+/-- No pool has a balance without shares (the "no delegations ⇒ zero escrow balance" clause of
+`SanityCheckAccountShares`). -/
+def wfB (l : Ledger) : Bool :=
+  (List.range l.n).all (fun i =>
+    ((l.acct i).active.totalShares != 0 || (l.acct i).active.balance == 0) &&
+    ((l.acct i).debonding.totalShares != 0 || (l.acct i).debonding.balance == 0))
+
 /-- `InitChain`: the genesis document is accepted iff the declared total supply is what the parts
 add up to and the share totals match the delegations; last-block fees of the genesis document are
 moved to the common pool. -/
 def genesis (l : Ledger) : Except LErr Ledger :=
   let l1 := { l with common := l.common + l.lastBlockFees, lastBlockFees := 0, lbfSpent := false, feeAcc := 0,
                      burned := 0, proposer := none, epochChanged := false }
-  if invB l1 then .ok l1 else .error .fatal
+  if invB l1 && wfB l1 then .ok l1 else .error .fatal
 
 /-! ### Histories: blocks of operations -/
 
